@@ -1213,7 +1213,7 @@ pub fn property() -> Property {
         id: "C19",
         title: "Builders apply exactly the documented effect of each call, in any order",
         rule: "call sequences over every public method of all 14 builders (header, signature, sign, sign1, mac, mac0, encrypt, encrypt0, recipient, key incl. its five constructors, claims set, party info, supplementary info, KDF context): \
-               exhaustively all sequences of length <= 3 over a per-builder palette (length <= 2 for the claims builder, whose palette lists every registered claim name) including empty, boundary and reserved arguments, and generated sequences of length <= 16; \
+               exhaustively all sequences of length <= 3 over a per-builder palette (length <= 2 for the claims builder, whose palette lists every registered claim name) including empty, boundary and reserved arguments, and generated sequences of length <= 16 (key constructor arguments also shaped like key material: lengths at and next to the curve field sizes, leading 00 / ff / SEC1 prefix octets); \
                oracle: a field-map model applying each call's documented effect to a struct literal, compared with build(); documented refusals (panics) predicted per call; invariant: never both IV and Partial IV; \
                non-trivial = >= 2 calls, or a refused call; distinct by call list",
         assumptions: &["CoseKdfContext has private fields: compared through to_vec against the reference encoding of the modelled fields", "create helpers appear with constant closures (their byte-level behaviour is C03-C06's)"],
